@@ -466,15 +466,29 @@ func c10u6(p *Prog, r *Reporter) {
 	}
 	mf := &MustFlow{Fn: reg, EdgeGen: func(x *ssa.BasicBlock, k int) bool {
 		atom, holds, ok := edgeCond(x, k)
-		if !ok || holds {
+		if !ok {
 			return false
 		}
 		bo, isB := atom.(*ssa.BinOp)
-		if !isB || bo.Op != token.GEQ || bo.Y != ssa.Value(limit) {
+		if !isB {
 			return false
 		}
-		// X must be len(r.Components)
-		c := callOf(bo.X)
+		// on this edge `len(Components) < limit` must be known: a<b holds | a>=b fails | b>a holds | b<=a fails
+		var lhs ssa.Value
+		switch {
+		case bo.Op == token.LSS && holds && bo.Y == ssa.Value(limit):
+			lhs = bo.X
+		case bo.Op == token.GEQ && !holds && bo.Y == ssa.Value(limit):
+			lhs = bo.X
+		case bo.Op == token.GTR && holds && bo.X == ssa.Value(limit):
+			lhs = bo.Y
+		case bo.Op == token.LEQ && !holds && bo.X == ssa.Value(limit):
+			lhs = bo.Y
+		default:
+			return false
+		}
+		// lhs must be len(r.Components)
+		c := callOf(lhs)
 		if c == nil {
 			return false
 		}
